@@ -13,7 +13,7 @@ LEVEL_TEXT = ("Static structural proof of necessary conditions: (R18.1) in creat
               "before any run; (R18.5) a backup becomes listed only past the two-entry test and both consistency "
               "raises. Byte identity, interruption at arbitrary I/O steps (the record write itself is not atomic) and "
               "idempotence of re-running are NOT decided.")
-LEVEL_EXTRA = 'Added after the seeded evaluation: (R18.2) the name tested by the same-name refusal is the name used by every write (no re-definition in between); (R18.4) the data tree is scanned (file list, task parsing) only after the restore. The same-name refusal also consults the file system; the task filter is not a substring test. (R18.5) a backup key is the relative path joined unchanged. (R18.6) no case normalisation of path components in get_path_components / get_file_key. (R18.7) every caller of the consistency check tests both discrepancy lists and raises. (R18.8) every restore in the CLI passes the task names. (R18.9) a parameter is handed on to every repository callee that takes a parameter of the same name (11 frozen exceptions package-wide).'
+LEVEL_EXTRA = 'Added after the seeded evaluation: (R18.2) the name tested by the same-name refusal is the name used by every write (no re-definition in between); (R18.4) the data tree is scanned (file list, task parsing) only after the restore. The same-name refusal also consults the file system; the task filter is not a substring test. (R18.5) a backup key is the relative path joined unchanged. (R18.6) no case normalisation of path components in get_path_components / get_file_key. (R18.7) every caller of the consistency check tests both discrepancy lists and raises. (R18.8) every restore in the CLI passes the task names. (R18.9) a parameter is handed on to every repository callee that takes a parameter of the same name (11 frozen exceptions package-wide). (R18.10) get_task matches the task entity against the base name of the path.'
 
 COPY_NAMES = ("copy", "copy2", "copyfile", "copytree", "move")
 
@@ -408,6 +408,35 @@ def run(ctx):
     from sa.forward import check_forwarding
     nfw = check_forwarding(ctx, "R18.9", [f for f in prog.functions.values() if f.module.name.startswith(('hed.tools.remodeling.backup_manager', 'hed.tools.remodeling.cli'))], 'e.g. the backup name, the task names')
     ctx.floor("R18.9", "same-named parameter sites", nfw, 1)
+
+    # ---------------- R18.10: the task of a file is read from its own name, not from the directories above it
+    ctx.rule("R18.10", "BackupManager.get_task matches the task entity against the base name of the path")
+    gt = bm.methods.get("get_task")
+    if gt is None:
+        raise AnalysisError("anchor BackupManager.get_task vanished")
+    ctx.saw(gt)
+    from sa.dataflow import ReachingDefs as _RD1810, depends_on as _dep1810
+    rd1810 = _RD1810(gt)
+    n1810 = 0
+    subjects = []       # (node, expression in which the task entity is looked for)
+    for c in walk_no_nested(gt.node):
+        if isinstance(c, ast.Call) and isinstance(c.func, ast.Attribute) and c.func.attr in ("search", "match", "fullmatch", "findall", "finditer") \
+                and isinstance(c.func.value, ast.Name) and c.func.value.id == "re" and len(c.args) >= 2:
+            subjects.append((c, c.args[1]))
+        elif isinstance(c, ast.Compare) and len(c.ops) == 1 and isinstance(c.ops[0], (ast.In, ast.NotIn)) and "task" in norm(c.left):
+            subjects.append((c, c.comparators[0]))
+        elif isinstance(c, ast.Call) and isinstance(c.func, ast.Attribute) and c.func.attr in ("find", "startswith", "endswith", "count", "index") \
+                and c.args and "task" in norm(c.args[0]):
+            subjects.append((c, c.func.value))
+    for c, subj in subjects:
+        n1810 += 1
+        ok1810 = _dep1810(rd1810, subj, c, lambda y: isinstance(y, ast.Call) and call_name(y) in ("basename", "split", "name") or (
+            isinstance(y, ast.Attribute) and y.attr in ("name", "stem")))
+        ctx.check(ok1810, "R18.10", gt.qualname, c, loc(gt, c),
+                  "the task entity is looked for in `%s`, the whole path: a directory, data-root or backup name that contains "
+                  "`task_<name>` makes every file below it count as that task, so a restore limited to some tasks also overwrites "
+                  "files of other tasks" % norm(subj)[:40], desc="task matched on the file's base name")
+    ctx.floor("R18.10", "task pattern searches in get_task", n1810, 1)
 
 
 def _negated(test):
